@@ -2506,11 +2506,34 @@ impl TypeChecker {
 //@ end
 //@ fn sylt-compiler/src/typechecker.rs resolve_constraint
 //@   in TypeChecker
-//@   mode assumed
+//@   props C02 C07
 //@   ret r
+//@   rewrite equivalent
+//@- match constraint.name.name.as_str() {
+//@-     "Num" => {
+//@+ let cname = &constraint.name.name;
+//@+ if *cname == *"Num" {
+//@+     {
+//@   why Verus has no string patterns: a match on a &str against string literals, in order, with a binding catch-all is this if / else-if chain (the catch-all arm only uses its binding in the error message, which D-msg drops)
+//@   endrewrite
+//@   rewrite equivalent
+//@-     "CmpEqu" => {
+//@+     } else if *cname == *"CmpEqu" {
+//@+     {
+//@   why second arm of the rewrite above
+//@   endrewrite
+//@   rewrite equivalent
+//@-     x => return err_type_error!(self, span, TypeError::UnknownConstraint(x.into())),
+//@- }
+//@+     } else { return err_type_error!(self, span, TypeError::UnknownConstraint(cname.into())); }
+//@   why catch-all arm of the rewrite above
+//@   endrewrite
+//@   inner check_constraint_arity
+//@     ret r
+//@   endinner
 //@   spec
-        requires old(self).inv2(), old(self).valid(var),
-        ensures final(self).inv2(), final(self).grows(old(self)),
+        requires old(self).inv2(), old(self).valid(var), //# C07 resolve_constraint.pre.id_in_range
+        ensures final(self).inv2(), final(self).grows(old(self)), //# C02,C07 resolve_constraint.keeps_invariant
 //@   endspec
 //@ end
 //@ fn sylt-compiler/src/typechecker.rs inner_resolve_type
